@@ -43,7 +43,7 @@ class Query:
     def __init__(self, name, harness, defines=None, unwind=8, unwindset=None, models=False, ndebug=True,
                  checks='none', covers=(999,), timeout=600, mem_gb=16, diff_random=6, diff_inputs=(),
                  extra_cbmc=(), extra_clang=(), rtti=False, desc='', known=None, sat=None, symbolic='',
-                 bounds=None, expect_fail=(), exceptions_native=False):
+                 bounds=None, expect_fail=(), exceptions_native=False, env=False, uf_mul=False, precise_defines=None, precise_sat=None):
         self.name = name
         self.harness = harness
         self.defines = dict(defines or {})
@@ -53,7 +53,7 @@ class Query:
         self.ndebug = ndebug
         self.checks = checks          # 'none' | 'memory' | 'all'
         self.covers = tuple(covers)
-        self.timeout = timeout
+        self.timeout = int(os.environ.get('VERIF_TIMEOUT', timeout))
         self.mem_gb = mem_gb
         self.diff_random = diff_random
         self.diff_inputs = list(diff_inputs)
@@ -66,6 +66,10 @@ class Query:
         self.symbolic = symbolic
         self.bounds = bounds or {}
         self.expect_fail = tuple(expect_fail)
+        self.env = env
+        self.uf_mul = uf_mul
+        self.precise_defines = dict(precise_defines or {})
+        self.precise_sat = precise_sat
 
     def dflags(self):
         return ['-D%s=%s' % (k, v) if v is not None else '-D%s' % k for k, v in sorted(self.defines.items())]
@@ -91,6 +95,8 @@ def build(q, wd):
     os.makedirs(wd, exist_ok=True)
     src = os.path.join(HARNESS_DIR, q.harness)
     inc = ['-I', HARNESS_DIR]
+    if q.env:
+        inc = ['-I', os.path.join(VERIF, 'models_env')] + inc
     model_inc = ['-I', MODELS_DIR] if q.models else []
     repo_inc = ['-I', os.path.join(REPO, 'include')]
     nd = ['-DNDEBUG'] if q.ndebug else []
@@ -104,7 +110,10 @@ def build(q, wd):
     info['clang_s'] = round(dt, 2)
     if rc != 0:
         raise Inconclusive('clang failed for %s:\n%s' % (q.name, out[-3000:]))
-    rc, out, dt = sh([sys.executable, LL2C, ll, '-o', cfile], timeout=600)
+    ll2c_env = dict(os.environ)
+    if q.uf_mul:
+        ll2c_env['LL2C_UF_MUL'] = '1'
+    rc, out, dt = sh([sys.executable, LL2C, ll, '-o', cfile], timeout=600, env=ll2c_env)
     info['ll2c_s'] = round(dt, 2)
     if rc != 0:
         raise Inconclusive('ll2c failed for %s:\n%s' % (q.name, out[-3000:]))
@@ -234,7 +243,7 @@ def cbmc_flags(q):
     return fl
 
 
-def run_query(q, root, seed):
+def _run_query_once(q, root, seed):
     """Build, differential-test, model-check and replay one query. Returns a result dict."""
     t0 = time.time()
     wd = os.path.join(root, re.sub(r'\W', '_', q.name))
@@ -283,7 +292,12 @@ def run_query(q, root, seed):
                 reproduced = ('ASSERT-FAIL %d' % aid) in on.split('\n')
                 if aid >= 900:
                     if aid in q.covers:
-                        if reproduced:
+                        if q.uf_mul and not reproduced:
+                            # witness found under the multiplication abstraction: its concrete products differ, so it cannot
+                            # be replayed; reachability in the abstract model is what is recorded
+                            cover_hit.add(aid)
+                            res.setdefault('witness_samples', []).append({'cover': aid, 'inputs': tr[:40], 'native_output': ['(abstract-model witness, not replayable)']})
+                        elif reproduced:
                             cover_hit.add(aid)
                             res.setdefault('witness_samples', []).append({'cover': aid, 'inputs': tr[:40], 'native_output': on.split('\n')[:6]})
                         else:
@@ -323,6 +337,30 @@ def run_query(q, root, seed):
         res['notes'].append('framework exception: %r' % (e,))
     res['wall_s'] = round(time.time() - t0, 2)
     return res
+
+
+def run_query(q, root, seed):
+    """Abstraction refinement for uf_mul queries: a proof with 64x64 multiplication as an uninterpreted function holds
+    for the real multiplication too; a failure under the abstraction is re-decided with the precise bit-level encoding."""
+    r = _run_query_once(q, root, seed)
+    if q.uf_mul and (r.get('unreproduced') or r['violations'] or r['status'] == 'check-failure'):
+        import copy
+        q2 = copy.copy(q)
+        q2.uf_mul = False
+        q2.name = q.name + '__precise'
+        q2.defines = dict(q.defines); q2.defines.update(q.precise_defines)
+        if q.precise_sat: q2.sat = q.precise_sat
+        r2 = _run_query_once(q2, root, seed)
+        r2['query'] = q.name
+        if q.precise_defines and r2['status'] == 'pass':
+            r2['status'] = 'inconclusive'
+            r2['notes'].append('abstract run failed and the bit-precise re-run (restricted by %s) found no concrete counterexample' % q.precise_defines)
+        r2['notes'].insert(0, 'abstract (uninterpreted multiplication) run failed; re-decided with precise multiplication')
+        r2['abstract_run'] = {k: r.get(k) for k in ('status', 'stats', 'cbmc_wall_s')}
+        return r2
+    if q.uf_mul:
+        r['notes'].append('64x64 multiplications abstracted as an uninterpreted function (sound for proofs)')
+    return r
 
 
 def load_known(pid):
